@@ -186,4 +186,28 @@ example : marshal ⟨0, 1, [⟨0, 5, [], 0, 0, 0⟩], false⟩ = .err .spatialID
 example : marshal ⟨0, 1, [⟨0, 0, [100, 200, 300, 400, 500], 0, 0, 0⟩], false⟩ = .err .temporal := by decide
 example : marshal ⟨0, 1, [⟨0, 0, [100], 0, 0, 0⟩, ⟨0, 0, [200], 0, 0, 0⟩], false⟩ = .err .duplicate := by decide
 
+/-- Marshal never panics, whatever the allocation (valid, rejected, or accepted though not valid:
+    unsorted layers, negative bitrates, out-of-range resolutions): once validation has passed, the
+    buffer it sizes is filled exactly. -/
+theorem c19_marshal_total (v : VLA) : marshal v ≠ .panic := marshal_ne_panic v
+
+/-- The predicate of kinds c19.rt / c19.rej holds of the model on EVERY input outside the region
+    of the open finding: valid allocations encode per spec and round-trip, allocations that must be
+    rejected are rejected, and nothing panics on the rest. -/
+theorem c19_rt (hleb : Model.LebGoSpec) (v r : VLA) (hsmall : bigRate v = false) :
+    Pred.C19.rt v r (rtModel v r) = true := by
+  by_cases h : v.WF
+  · exact c19_rt_partial hleb v r h hsmall
+  · by_cases hm : mustReject v = true
+    · obtain ⟨e, he⟩ := c19_rejects v hm
+      simp [Pred.C19.rt, h, hm, rtModel, he, isErr]
+    · have hp := c19_marshal_total v
+      simp only [Pred.C19.rt, h, if_false, hm, Bool.false_eq_true, rtModel]
+      cases hmv : marshal v with
+      | panic => exact absurd hmv hp
+      | err e => simp
+      | ok b =>
+        have := (c19_decoder_safe_spec r b).1
+        simp [this]
+
 end Rtp.Props.C19
